@@ -317,7 +317,7 @@ func someCidBytes(b byte) []byte {
 }
 
 func runC03(r *vfw.Run) {
-	o := scen.Opts{MinIdent: 2, MaxIdent: 16, CeremonySoon: true, Skew: true, Contracts: r.Choose("c03.contracts", 2) == 0}
+	o := scen.Opts{MinIdent: 2, MaxIdent: 16, CeremonySoon: true, Skew: true, Contracts: r.Choose("c03.contracts", 2) == 0, SmallShards: true}
 	lr := newLedgerRun(r, o, 20, 40)
 	s := lr.s
 	defer s.Close()
